@@ -6,7 +6,7 @@ CONSTANTS
   BinOps <- MC_OpsRoutes
   Maps <- MC_MapsRoutes
   OnePairs <- MC_PairsNone
-  Routes = {"equation", "block", "shared_block", "shared_each"}
+  Routes = {"equation", "block", "shared_block", "shared_each", "cancel_first", "cancel_mid"}
   MaxUnits = 3
   MinUnits = 0
   MaxDepth = 1
